@@ -132,7 +132,8 @@ def run_history(ws, history, keep=False):
             pd = ws.new()
             try:
                 probe_job = {k: v for k, v in history["steps"][0].items()
-                             if k not in ("kill_after", "kill_frac")}
+                             if k not in ("kill_after", "kill_frac", "kill_event",
+                                      "kill_after_mid_checkpoint")}
                 prep = run_step(pd, probe_job, 0)
             finally:
                 shutil.rmtree(pd, ignore_errors=True)
